@@ -187,6 +187,11 @@ func c14Run(o *out, c c14case) {
 		case 'A':
 			in = objs[op.idx]
 			ops = append(ops, fmt.Sprintf("A:%d", op.idx))
+		case 'W':
+			// the caller re-uses an object it added before: writes the next event into it and adds it again
+			in = objs[op.idx]
+			*in = op.p
+			ops = append(ops, fmt.Sprintf("W:%d:%s", op.idx, c14Perf(in)))
 		case 'Z':
 			ops = append(ops, "Z")
 		case 'X':
@@ -445,6 +450,17 @@ func c14ParseCase(line string) (c14case, error) {
 				return c, errors.New("bad A op " + t)
 			}
 			c.ops = append(c.ops, c14op{kind: 'A', idx: i})
+		case strings.HasPrefix(t, "W:"):
+			f := strings.SplitN(t[2:], ":", 2)
+			i, err := strconv.Atoi(f[0])
+			if err != nil || len(f) != 2 || i < 0 || i >= nobj {
+				return c, errors.New("bad W op " + t)
+			}
+			p, err := c14ParsePerf(f[1])
+			if err != nil {
+				return c, err
+			}
+			c.ops = append(c.ops, c14op{kind: 'W', idx: i, p: p})
 		case strings.HasPrefix(t, "N:"):
 			p, err := c14ParsePerf(t[2:])
 			if err != nil {
@@ -547,6 +563,22 @@ func init() {
 						c14op{kind: 'N', p: r.c14Event(40)}, c14op{kind: 'A', idx: 0}, c14op{kind: 'A', idx: 1}, c14op{kind: 'A', idx: 0})
 					c14Run(o, c2)
 				}
+			}
+		}
+
+		// 1b. one event struct re-used by the caller: written to and added again (the first object is the cumulative and
+		//     sampling collectors' accumulator; a later object, and any object of the pass-through collector, is not)
+		for _, k := range []string{"cum", "samp", "pass"} {
+			for _, target := range []int{0, 1} {
+				c := c14case{kind: k, n: 1, under: "dyn", chunk: 4}
+				if k == "samp" {
+					c.n = 2
+				}
+				c.ops = append(c.ops, c14op{kind: 'N', p: r.c14Event(0)}, c14op{kind: 'N', p: r.c14Event(0)})
+				for i := 0; i < 3; i++ {
+					c.ops = append(c.ops, c14op{kind: 'W', idx: target, p: r.c14Event(0)})
+				}
+				c14Run(o, c)
 			}
 		}
 
